@@ -26,27 +26,26 @@ pub(crate) struct PhoneticMethod {
 impl PhoneticMethod {
     /// Creates a new `PhoneticMethod` struct.
     pub(crate) fn new(config: &Config) -> Self {
-        // Load candidate selections file.
-        let selections = if let Ok(file) = std::fs::read(config.get_user_phonetic_selection_data())
-        {
-            serde_json::from_slice(&file).unwrap()
-        } else {
-            HashMap::with_hasher(RandomState::new())
-        };
+        // Load candidate selections file. An unreadable file is treated as an absent one.
+        let selections = std::fs::read(config.get_user_phonetic_selection_data())
+            .ok()
+            .and_then(|file| serde_json::from_slice(&file).ok())
+            .unwrap_or_else(|| HashMap::with_hasher(RandomState::new()));
 
-        // Load user's auto correct file.
-        let (modified, autocorrect) = {
-            if let Ok(mut file) = File::open(config.get_user_phonetic_autocorrect()) {
-                let modified = file.metadata().unwrap().modified().unwrap();
-                let autocorrect = serde_json::from_slice(&read(&mut file)).unwrap();
-                (modified, autocorrect)
-            } else {
+        // Load user's auto correct file. An unreadable file is treated as an absent one.
+        let (modified, autocorrect) = File::open(config.get_user_phonetic_autocorrect())
+            .ok()
+            .and_then(|mut file| {
+                let modified = file.metadata().ok()?.modified().ok()?;
+                let autocorrect = serde_json::from_slice(&read(&mut file)).ok()?;
+                Some((modified, autocorrect))
+            })
+            .unwrap_or_else(|| {
                 (
                     SystemTime::UNIX_EPOCH,
                     HashMap::with_hasher(RandomState::new()),
                 )
-            }
-        };
+            });
 
         PhoneticMethod {
             buffer: String::with_capacity(20),
@@ -133,11 +132,11 @@ impl Method for PhoneticMethod {
                     .to_string(),
                 suggestion,
             );
-            write(
+            // A failed save must not break the input session, the selection is still kept in memory.
+            let _ = write(
                 config.get_user_phonetic_selection_data(),
                 serde_json::to_string(&self.selections).unwrap(),
-            )
-            .unwrap();
+            );
         }
 
         // Reset to defaults
@@ -146,12 +145,14 @@ impl Method for PhoneticMethod {
 
     fn update_engine(&mut self, config: &Config) {
         if let Ok(mut file) = File::open(config.get_user_phonetic_autocorrect()) {
-            let modified = file.metadata().unwrap().modified().unwrap();
-            // Update the auto correct entries if only the file was modified in the meantime.
-            if modified > self.modified {
-                self.suggestion.user_autocorrect =
-                    serde_json::from_slice(&read(&mut file)).unwrap();
-                self.modified = modified;
+            if let Ok(modified) = file.metadata().and_then(|m| m.modified()) {
+                // Update the auto correct entries if only the file was modified in the meantime.
+                if modified > self.modified {
+                    // An unreadable file is treated as an absent one.
+                    self.suggestion.user_autocorrect =
+                        serde_json::from_slice(&read(&mut file)).unwrap_or_default();
+                    self.modified = modified;
+                }
             }
         }
     }
